@@ -183,6 +183,9 @@ def run(rep, proj, tier):
     rep.rule_text = "7 histories x (observable triple x scheme x TMC x scale variations); comparisons per requested point; distinct by job label."
     rep.trusted_base = ["CPython ast", "yadsa partial evaluator (dict/list/cache semantics are the host interpreter's)"]
     rep.assumptions = ["scipy.integrate.quad, LeProHQ and eko's basis functions are deterministic pure functions of their arguments"]
+    from . import state
+
+    state.check(rep, proj, "C14.state", floor=4)
     js = jobs(tier)
     units = [(j, h) for j in js for h in HISTORIES]
     outs = sweep.run_cells(_unit, units)
